@@ -324,7 +324,7 @@ func C18(r *simkit.Run) {
 			nops := t.Range("ops", 1, 3)
 			for i := 0; i < nops; i++ {
 				tb := pickTable(tables)
-				op := t.Weighted("op", 3, 2, 2, 2, 2, 2, 1, 1, 1, 1, 1, 1)
+				op := t.Weighted("op", 3, 2, 2, 2, 2, 2, 1, 1, 1, 1, 1, 1, 1, 1)
 				if tb == nil {
 					op = 0
 				}
@@ -578,6 +578,74 @@ func C18(r *simkit.Run) {
 					delete(tables, tb.Name)
 					lf.desc = append(lf.desc, fmt.Sprintf("CREATE TABLE new_%s (unrelated); create %s with an index; DROP TABLE %s", tb.Name, ot.Name, tb.Name))
 					r.Probe("unrelated-table-named-like-a-rebuild-temporary")
+				case 12: // what starts like a rebuild of <t> drops another table where the rows would be copied
+					if busy(tableKeys(tb)...) {
+						continue
+					}
+					if _, existed := before[tb.Name]; !existed {
+						continue
+					}
+					var others []string
+					for n, o := range tables {
+						if _, existed := before[n]; existed && n != tb.Name && !busy(tableKeys(o)...) && !strings.HasPrefix(n, "new_") {
+							others = append(others, n)
+						}
+					}
+					sort.Strings(others)
+					if len(others) == 0 || tables["new_"+tb.Name] != nil {
+						continue
+					}
+					ot := tables[others[t.Draw("sandwiched-table", len(others))]]
+					// (The new table has columns of its own: no later operation of this file meets a column
+					// name that belonged to the dropped table.)
+					nt := &lTable{Name: tb.Name, Cols: []lCol{{Name: "id", Type: "integer"}, {Name: fmt.Sprintf("c%d", next()), Type: "text"}}}
+					emit(nt.createSQL("new_" + tb.Name))
+					s1, e1 := emit(fmt.Sprintf("DROP TABLE `%s`", ot.Name))
+					s2, e2 := emit(fmt.Sprintf("DROP TABLE `%s`", tb.Name))
+					emit(fmt.Sprintf("ALTER TABLE `new_%s` RENAME TO `%s`", tb.Name, tb.Name))
+					ev(ot.Name, "drop")
+					ev(tb.Name, "drop")
+					ev(tb.Name, "add")
+					for _, nc := range nt.Cols[1:] {
+						ev(nt.Name+"."+nc.Name, "add")
+					}
+					dropAt(s1, e1, ot.Name)
+					dropAt(s2, e2, tb.Name)
+					lf.expect = append(lf.expect,
+						lintExpect{code: "DS102", key: ot.Name, what: "table " + ot.Name + " (dropped between CREATE TABLE new_" + tb.Name + " and DROP TABLE " + tb.Name + ")", start: s1, end: e1},
+						lintExpect{code: "DS102", key: tb.Name, what: "table " + tb.Name + " (dropped without its rows being copied, then re-created by a rename)", start: s2, end: e2})
+					delete(tables, ot.Name)
+					tables[tb.Name] = nt
+					lf.desc = append(lf.desc, fmt.Sprintf("CREATE TABLE new_%s; DROP TABLE %s; DROP TABLE %s; RENAME new_%s TO %s", tb.Name, ot.Name, tb.Name, tb.Name, tb.Name))
+					r.Probe("drop-sandwiched-in-a-rebuild-shape")
+				case 13: // a rebuild of <t> whose result gets another name: <t> is gone afterwards
+					if busy(tableKeys(tb)...) || tables["new_"+tb.Name] != nil || tables[tb.Name+"_v2"] != nil {
+						continue
+					}
+					if _, existed := before[tb.Name]; !existed {
+						continue
+					}
+					nt := &lTable{Name: tb.Name + "_v2", Cols: append([]lCol(nil), tb.Cols...)}
+					var keep []string
+					for _, x := range tb.Cols {
+						if !x.Virtual {
+							keep = append(keep, "`"+x.Name+"`")
+						}
+					}
+					emit(nt.createSQL("new_"+tb.Name),
+						fmt.Sprintf("INSERT INTO `new_%s` (%s) SELECT %s FROM `%s`", tb.Name, strings.Join(keep, ", "), strings.Join(keep, ", "), tb.Name))
+					s, e := emit(fmt.Sprintf("DROP TABLE `%s`", tb.Name))
+					emit(fmt.Sprintf("ALTER TABLE `new_%s` RENAME TO `%s`", tb.Name, nt.Name))
+					ev(tb.Name, "drop")
+					for _, k := range tableKeys(nt) {
+						ev(k, "add")
+					}
+					dropAt(s, e, tb.Name)
+					lf.expect = append(lf.expect, lintExpect{code: "DS102", key: tb.Name, what: "table " + tb.Name + " (its copy is renamed to " + nt.Name + ")", start: s, end: e})
+					delete(tables, tb.Name)
+					tables[nt.Name] = nt
+					lf.desc = append(lf.desc, fmt.Sprintf("rebuild of %s that ends in RENAME TO %s", tb.Name, nt.Name))
+					r.Probe("rebuild-renamed-to-another-name")
 				case 10: // a temporary column within the file
 					c := lCol{Name: fmt.Sprintf("x%d", next()), Type: "text"}
 					s, e := emit(fmt.Sprintf("ALTER TABLE `%s` ADD COLUMN `%s` text NULL", tb.Name, c.Name), fmt.Sprintf("ALTER TABLE `%s` DROP COLUMN `%s`", tb.Name, c.Name))
